@@ -14,13 +14,14 @@ import (
 
 // specEnv is the environment in which a contract expression is evaluated.
 type specEnv struct {
-	x     *Exec
-	fn    *ssa.Function // scope owner (for package lookup and locals)
-	fr    *frame        // non-nil: identifiers may resolve to live locals of this frame
-	st    *State
-	old   *State
-	names map[string]Value // parameters, results, quantified variables
-	inOld bool
+	x      *Exec
+	fn     *ssa.Function // scope owner (for package lookup and locals)
+	fr     *frame        // non-nil: identifiers may resolve to live locals of this frame
+	st     *State
+	old    *State
+	names  map[string]Value // parameters, results, quantified variables
+	inOld  bool
+	params map[string]Value // entry values of the parameters (used inside old() in loop invariants)
 }
 
 func (env *specEnv) with(name string, v Value) *specEnv {
@@ -37,6 +38,9 @@ func (env *specEnv) pkg() *types.Package { return env.fn.Pkg.Pkg }
 
 // evalBool evaluates a clause to an SMT Bool.
 func (env *specEnv) evalBool(e ast.Expr) Term {
+	saved := env.x.safety
+	env.x.safety = false
+	defer func() { env.x.safety = saved }()
 	v := env.eval(e)
 	if len(v.L) != 1 || v.L[0].Sort != SBool {
 		unsup("contract expression is not boolean: %s", exprString(e))
@@ -366,6 +370,7 @@ func (env *specEnv) indexValue(base, idx Value) Value {
 	switch u := base.T.Underlying().(type) {
 	case *types.Slice:
 		i := env.toBV64(idx)
+		x.noteSlice(env.st, base)
 		return x.loadAt(env.st, u.Elem(), base.L[0], BVOp("bvadd", base.L[1], mulOff(i, x.stride(u.Elem()))))
 	case *types.Pointer:
 		if arr, ok := u.Elem().Underlying().(*types.Array); ok {
@@ -513,8 +518,17 @@ func (env *specEnv) call(e *ast.CallExpr) Value {
 				n := *env
 				n.st = env.old
 				n.inOld = true
-				// locals are not part of the pre-state
+				// locals are not part of the pre-state; parameters have their entry values
 				n.fr = nil
+				if len(env.params) > 0 {
+					n.names = make(map[string]Value, len(env.names)+len(env.params))
+					for k, v := range env.params {
+						n.names[k] = v
+					}
+					for k, v := range env.names {
+						n.names[k] = v
+					}
+				}
 				return n.eval(e.Args[0])
 			case "len", "cap":
 				v := env.eval(e.Args[0])
@@ -589,6 +603,9 @@ func (env *specEnv) call(e *ast.CallExpr) Value {
 				name := "ufi_" + sanitize(strings.Trim(exprString(e.Args[0]), `"`))
 				t := x.C.Declare(name, SBV64)
 				return Value{T: types.Typ[types.Int], L: []Term{t}}
+			case "sameobj":
+				a, b := env.eval(e.Args[0]), env.eval(e.Args[1])
+				return Value{T: types.Typ[types.Bool], L: []Term{Eq(a.L[0], b.L[0])}}
 			case "sameptr":
 				a, b := env.eval(e.Args[0]), env.eval(e.Args[1])
 				return Value{T: types.Typ[types.Bool], L: []Term{And(Eq(a.L[0], b.L[0]), Eq(a.L[1], b.L[1]))}}
